@@ -10,10 +10,15 @@ ASSUMPTIONS = R.ASSUMPTIONS + [
     'infinitely often); blocking strategy — weak fairness plus strong fairness of lock acquisition (a thread whose lock / '
     're-acquisition after cvar.wait is enabled infinitely often eventually takes it): an assumption about std::sync::Mutex and '
     'the OS scheduler; real-time bounds are not modelled',
-    'termination theorems cover the single-producer sequencer with batches 1 <= b <= N; multi-producer runs are judged by the '
-    'oracle on the implementation events only (known finding F11)',
+    'termination theorems cover the single-producer sequencer with batches 1 <= b <= N, the multi-producer sequencer with ONE '
+    'writer thread and batches 1 <= b < N (ring sizes 2^k), and — for any number of writers — the draining thread and the '
+    'handlers from every state in which all writers are done and cursor = high watermark; with two or more writer threads '
+    'termination is false (known finding F11: a stranded sequence), those runs are judged by the oracle on the '
+    'implementation events',
 ]
-EXTRA_THEOREM_MODULES = ['DcVerif.Lemmas.Ring', 'DcVerif.Lemmas.FairTermination', 'DcVerif.Lemmas.RingLive']
+EXTRA_THEOREM_MODULES = ['DcVerif.Lemmas.Ring', 'DcVerif.Lemmas.FairTermination', 'DcVerif.Lemmas.RingLive',
+                         'DcVerif.Lemmas.RingMultiLiveC', 'DcVerif.Lemmas.RingMultiLiveInv', 'DcVerif.Lemmas.RingMultiLive',
+                         'DcVerif.Lemmas.RingMultiLiveS', 'DcVerif.Lemmas.RingMultiLiveB']
 classify, nontrivial = R.classify, R.nontrivial
 
 
